@@ -49,6 +49,9 @@ def judge_typeform(case, res, steps):
         return "purelist_depth: spec %s, library %s" % (exp["pd"], b.get("purelist_depth"))
     if (b.get("mindepth"), b.get("maxdepth")) != (exp["mind"], exp["maxd"]):
         return "minmax_depth: spec %s, library %s" % ((exp["mind"], exp["maxd"]), (b.get("mindepth"), b.get("maxdepth")))
+    # branch_depth = (do the fields / union members reach different depths?, the minimal depth)
+    if (bool(b.get("branch")), b.get("branchdepth")) != (bool(exp["branch"]), exp["mind"]):
+        return "branch_depth: spec %s, library %s" % ((bool(exp["branch"]), exp["mind"]), (bool(b.get("branch")), b.get("branchdepth")))
     if bool(b.get("isregular")) != bool(exp["isreg"]):
         return "purelist_isregular: spec %s, library %s" % (bool(exp["isreg"]), bool(b.get("isregular")))
     if not exp["hasunion"] and list(b.get("keys", [])) != list(exp["keys"]):
@@ -58,6 +61,9 @@ def judge_typeform(case, res, steps):
         return "form round trip raised: %s" % (r.get("msg") or r.get("harness"))
     if r.get("type_from_form") != r.get("type_from_layout"):
         return "type from the form %r differs from type from the array %r" % (r.get("type_from_form"), r.get("type_from_layout"))
+    if not (r.get("q_content") == r.get("q_form") == r.get("q_form2")):
+        return "depth / branch / regularity / keys queries disagree between the array (%s), its form (%s) and the re-read form (%s)" % (
+            r.get("q_content"), r.get("q_form"), r.get("q_form2"))
     if r.get("form1") != r.get("form2") or r.get("formequal") != 1:
         return "Form -> JSON -> Form changed the form: %s -> %s (equal=%s)" % (r.get("form1"), r.get("form2"), r.get("formequal"))
     for st, x in zip(steps[2:], res[2:]):
